@@ -30,12 +30,16 @@ REQUIRED_BRIDGES = {
                              "pixman_malloc_ab_plus_c_eq", "_pixman_multiply_overflows_int_eq",
                              "_pixman_multiply_overflows_size_eq", "_pixman_addition_overflows_int_eq"]],
     # pixman-region.c (region32 instantiation): per-step pieces (BridgesRegion.lean)
+    # pixman-region.c: one iteration of intersect_o / union_o (MERGERECT) / subtract_o (BridgesRegionO.lean)
+    "C05": [_P + n for n in ["region32_intersect_o_step_eq", "region32_union_o_both_step_eq", "region32_union_o_r1_step_eq",
+                             "region32_union_o_r2_step_eq", "region32_subtract_o_step_eq",
+                             "region32_subtract_o_tail_step_eq"]],
     "C06": [_P + n for n in ["region32_set_extents_step_eq", "region32_set_extents_step_end",
                              "region32_coalesce_compare_step_differ", "region32_coalesce_compare_step_same",
                              "region32_coalesce_merge_step_eq"]],
     "C07": [_P + n for n in ["region32_translate_sums_eq", "region32_translate_inrange_eq", "region32_translate_outside_eq",
                              "region32_translate_clamp_extents_eq", "region32_translate_move_step_eq",
-                             "region32_translate_clamp_step_eq"]],
+                             "region32_translate_clamp_step_eq", "region32_translate_single_eq"]],
     "C08": [_P + "pixman_fixed_to_bilinear_weight_eq", _P + "repeat_eq", _P + "bilinear_interpolation_eq"],
     # pixman-image.c: compute_image_info = C14's literal model = C09's continuation form (flag constants matched
     # against Gen/ImageFlags inside the proof)
